@@ -16,7 +16,7 @@ import (
 )
 
 // GRPCTarget implements the repository's example TargetService (examples/grpc/server) with server
-// reflection.  Hello answers with the status the request itself asks for: name "code:<n>" makes the
+// reflection.  Hello answers with the status the request itself asks for: name "code:<n>" (or "code:<n>/<label>") makes the
 // call end with status.Error(codes.Code(n)) (n = 0: a normal HelloResponse); name "stall" is never answered
 // before the caller has given up.  Every call is counted.
 type GRPCTarget struct {
@@ -67,6 +67,7 @@ func (t *GRPCTarget) Hello(ctx context.Context, req *server.HelloRequest) (*serv
 		return nil, status.Error(codes.Aborted, "stalled")
 	}
 	if rest, ok := strings.CutPrefix(req.GetName(), "code:"); ok {
+		rest, _, _ = strings.Cut(rest, "/") // "code:<n>/<label>": the label only identifies the caller's step
 		n, err := strconv.Atoi(rest)
 		if err != nil {
 			return nil, status.Error(codes.Internal, "targets: bad code request")
